@@ -444,6 +444,44 @@ func init() {
 		})
 	})
 
+	// logBig: small, small, one entry of Big bytes, small — flush — then the order of the four messages in the raw bytes
+	// of the log files (name order).  An entry larger than the decoder's window cannot be decoded back, and one larger than
+	// the logger's write buffer takes another path in bufio: the bytes on disk are what can be checked.
+	register("logBig", func(raw json.RawMessage) (interface{}, error) {
+		var a struct{ Big int }
+		if err := json.Unmarshal(raw, &a); err != nil {
+			return nil, err
+		}
+		return withTimeout(60*time.Second, func() (interface{}, error) {
+			return inLogScope(func(dir string) (interface{}, error) {
+				atomic.StoreInt64(&log.LogFileMaxSize, 1<<30)
+				ctx := context.Background()
+				log.Info(ctx, "bigmark-1")
+				log.Info(ctx, "bigmark-2")
+				log.Info(ctx, "bigmark-3 "+strings.Repeat("z", a.Big))
+				log.Info(ctx, "bigmark-4")
+				log.Flush()
+				var all []byte
+				for _, n := range dirNames(dir) {
+					st, err := os.Lstat(filepath.Join(dir, n))
+					if err != nil || !st.Mode().IsRegular() || !strings.HasSuffix(n, ".log") {
+						continue
+					}
+					b, err := ioutil.ReadFile(filepath.Join(dir, n))
+					if err != nil {
+						return nil, err
+					}
+					all = append(all, b...)
+				}
+				pos := make([]int, 4)
+				for i := range pos {
+					pos[i] = bytes.Index(all, []byte(fmt.Sprintf("bigmark-%d", i+1)))
+				}
+				return map[string]interface{}{"pos": pos, "bytes": len(all)}, nil
+			})
+		})
+	})
+
 	// logSecondary: a secondary logger (the kind shakespeare uses for its narrator, spotlight, audit and
 	// collector logs) with garbage collection enabled, in the scratch log directory or in a directory of
 	// its own: N messages with a small LogFileMaxSize (one file per few messages), flush, wait until the
